@@ -164,6 +164,10 @@ def more_requests(run, reqs, expect, descs):
                         ok = False
                         run.note_broken("correspondence: %s attenuation matrix entry (%d,%d) != scalar evaluation: %r vs %r"
                                         % (name, i, j, float(mat[i, j]), sc))
+                        run.fail_input("atten-forms", {"ice": name, "z": z, "f": f},
+                                       observed={"scalar": sc, "matrix": float(mat[i, j]), "row": float(row[j]) if i == 0 else None,
+                                                 "col": float(col[i]) if j == 0 else None},
+                                       what="attenuation_length scalar/row/column/matrix forms disagree at one depth and frequency")
             reqs.append("atten %s %d %s %d %s" % (name, len(zs), fw.fl(zs), len(fs), fw.fl(fs)))
             expect.append([float(v) for v in mat.flatten()]); descs.append((name, "atten", tuple(zs) + tuple(fs)))
             run.count("atten_" + name)
@@ -172,7 +176,9 @@ def more_requests(run, reqs, expect, descs):
             reqs.append("temp %s %s" % (name, fw.fl(zs)))
             expect.append([float(ice.temperature(z)) - 273.15 for z in zs]); descs.append((name, "temp", tuple(zs)))
     for rep in range(run.scale(4, 30)):
-        n = run.rng.uniform(1.2, 1.9)
+        # the index may be given as a float, a Python int or a numpy integer/float32 scalar
+        n = run.rng.choice([run.rng.uniform(1.2, 1.9), run.rng.uniform(1.2, 1.9), 1, 2, np.int64(1), np.float32(1.5)])
+        run.count("uniform_index_type_" + type(n).__name__)
         lo = -run.rng.uniform(50, 3000); hi = run.rng.choice([0.0, -run.rng.uniform(0, 40)])
         ab = run.rng.choice([1, None, 1.1]); be = run.rng.choice([None, 1.9])
         u = UniformIce(index=n, valid_range=(lo, hi), index_above=ab, index_below=be)
@@ -183,11 +189,11 @@ def more_requests(run, reqs, expect, descs):
         if arr_u != sca or any(u.gradient(z)[2] != 0 for z in zs):
             ok = False; run.note_broken("correspondence: UniformIce scalar/array index disagree or gradient != 0")
             badz = [z_ for z_, a_, s_ in zip(zs, arr_u, sca) if a_ != s_]
-            run.fail_input("uniform-scalar-array", {"n": n, "range": [lo, hi], "index_above": ab, "index_below": be, "depths": badz},
+            run.fail_input("uniform-scalar-array", {"n": float(n), "n_type": type(n).__name__, "range": [lo, hi], "index_above": ab, "index_below": be, "depths": badz},
                            observed=[a_ for a_, s_ in zip(arr_u, sca) if a_ != s_], expected=[s_ for a_, s_ in zip(arr_u, sca) if a_ != s_],
                            what="UniformIce.index(array) != index(scalar) at depth(s) %s (or a non-zero gradient)" % badz[:3])
         opt = lambda v: "-" if v is None else str(fw.f2b(v))
-        reqs.append("uindex %s %s %s %s" % (fw.fl([n, lo, hi]), opt(ab), opt(be), fw.fl(zs)))
+        reqs.append("uindex %s %s %s %s" % (fw.fl([float(n), lo, hi]), opt(ab), opt(be), fw.fl(zs)))
         expect.append(sca); descs.append(("uniform", "uindex", tuple(zs)))
         run.count("uniform_ice")
     for rep in range(run.scale(6, 40)):
@@ -361,6 +367,14 @@ def search_forms(run):
                                    what="attenuation_length(%s) differs from the float64 evaluation" % form)
 
 
+def _atten_forms(ice, z, f):
+    """the same depth and frequency through the scalar, row, column and matrix call forms"""
+    return {"scalar": float(ice.attenuation_length(z, f)),
+            "row": float(np.asarray(ice.attenuation_length(z, np.array([f, 2 * f])))[0]),
+            "col": float(np.asarray(ice.attenuation_length(np.array([z, z / 2]), f))[0]),
+            "matrix": float(np.asarray(ice.attenuation_length(np.array([z, z / 2]), np.array([f, 2 * f])))[0, 0])}
+
+
 def search_atten(run):
     for name, ice in shipped():
         lo, hi = ice.valid_range
@@ -372,6 +386,19 @@ def search_atten(run):
         for i, j in bad[:3]:
             run.fail_input("atten-positive", {"ice": name, "z": float(zs[i]), "f": float(fs[j])}, observed=float(m[i, j]),
                            what="attenuation length not positive and finite")
+        # every call form, over the whole frequency range (incl. far above the models' fitted band)
+        for rep in range(run.scale(30, 300)):
+            z = float(run.rng.choice([lo, hi, run.rng.uniform(lo, hi)]))
+            f = float(10 ** run.rng.uniform(6, 10.3))
+            with np.errstate(all="ignore"):
+                vals = _atten_forms(ice, z, f)
+            run.case((name, "atten-forms", z, f))
+            if not all(np.isfinite(v) and v > 0 for v in vals.values()):
+                run.fail_input("atten-positive", {"ice": name, "z": z, "f": f}, observed=vals,
+                               what="attenuation length not positive and finite in some call form")
+            elif not all(fw.close(v, vals["scalar"], 1e-12) for v in vals.values()):
+                run.fail_input("atten-forms", {"ice": name, "z": z, "f": f}, observed=vals,
+                               what="attenuation_length scalar/row/column/matrix forms disagree")
 
 
 def _ice_named(name, params=None):
@@ -407,5 +434,24 @@ def replay(run, data):
             gs, ga = float(ice.depth_with_index(v)), float(ice.depth_with_index(np.array([v]))[0])
         if not (gs == edge and ga == edge):
             run.fail_input(kind, inp, observed={"scalar": gs, "array": ga}, expected=edge, what="depth_with_index not clamped")
+    elif kind == "uniform-scalar-array":
+        from pyrex.ice_model import UniformIce
+        ty = {"int": int, "int64": np.int64, "float32": np.float32}.get(inp.get("n_type"), float)
+        u = UniformIce(index=ty(inp["n"]), valid_range=tuple(inp["range"]), index_above=inp["index_above"],
+                       index_below=inp["index_below"])
+        zs = inp["depths"]
+        sca = [float(u.index(z)) for z in zs]
+        arr = [float(v) for v in u.index(np.array(zs))]
+        if arr != sca or any(u.gradient(z)[2] != 0 for z in zs):
+            run.fail_input(kind, inp, observed=arr, expected=sca, what="UniformIce.index(array) != index(scalar)")
+    elif kind in ("atten-forms", "atten-positive"):
+        ice = _ice_named(inp["ice"])
+        z, f = inp["z"], inp["f"]
+        with np.errstate(all="ignore"):
+            vals = _atten_forms(ice, z, f)
+        if not all(np.isfinite(v) and v > 0 for v in vals.values()):
+            run.fail_input("atten-positive", inp, observed=vals, what="attenuation length not positive and finite")
+        elif not all(fw.close(v, vals["scalar"], 1e-12) for v in vals.values()):
+            run.fail_input("atten-forms", inp, observed=vals, what="attenuation_length forms disagree")
     else:
         search(run, True)
